@@ -438,6 +438,51 @@ theorem provider_chain_rule (i : GetIn) (latest pred : Lookup) (now : Int) (l : 
               exact ⟨rfl, hg'⟩
       exact ⟨L, hL, hv, Or.inr ⟨hok, ⟨g, hg.1⟩, hg.2⟩⟩
 
+/-! ## `LoadChains`: the same rule at the second entry point, independent of file order -/
+
+/-- a chain file is inserted into the trust DB iff it is a readable, valid chain inside its
+validity that verifies against one of the TRCs `activeTRCs` selected (and the DB takes it) -/
+theorem loadFile_loaded_iff (f : FileIn) :
+    loadFile f = .loaded ↔
+      f.readable = true ∧ f.chainValid = true ∧ f.inValidity = true ∧
+      ((∃ t, f.active = .one t ∧ f.ok0 = true) ∨
+       (∃ t g, f.active = .two t g ∧ (f.ok0 = true ∨ f.ok1 = true))) ∧
+      f.insertFails = false ∧ f.duplicate = false := by
+  unfold loadFile FileIn.verified
+  cases f.readable <;> cases f.chainValid <;> cases f.inValidity <;> simp
+  cases f.active <;> cases f.ok0 <;> cases f.ok1 <;> cases f.insertFails <;> cases f.duplicate <;> simp
+
+/-- the decision taken for the file at position `i` is `loadFile` of that file alone: it does
+not depend on which files were processed (or loaded) before it -/
+theorem loadChains_order_independent (fs : List FileIn) (i : Nat) (r : FileRes)
+    (h : (loadChains fs)[i]? = some r) : ∃ f, fs[i]? = some f ∧ r = loadFile f := by
+  induction fs generalizing i with
+  | nil => simp [loadChains] at h
+  | cons f rest ih =>
+    unfold loadChains at h
+    split at h
+    · rename_i hab
+      cases i with
+      | zero => simp at h; exact ⟨f, by simp, by rw [hab]; exact h.symm⟩
+      | succ n => simp at h
+    · rename_i x hx
+      cases i with
+      | zero => simp at h; exact ⟨f, by simp, h.symm⟩
+      | succ n =>
+        simp only [List.getElem?_cons_succ] at h ⊢
+        exact ih n h
+
+/-- hence every file reported as loaded verifies against the latest TRC while it is valid or
+against the predecessor inside the grace period (with `provider_active_trc_rule`) -/
+theorem loadChains_loaded_verified (fs : List FileIn) (i : Nat)
+    (h : (loadChains fs)[i]? = some .loaded) :
+    ∃ f, fs[i]? = some f ∧ f.chainValid = true ∧ f.inValidity = true ∧
+      ((∃ t, f.active = .one t ∧ f.ok0 = true) ∨
+       (∃ t g, f.active = .two t g ∧ (f.ok0 = true ∨ f.ok1 = true))) := by
+  obtain ⟨f, hf, hr⟩ := loadChains_order_independent fs i _ h
+  have := (loadFile_loaded_iff f).1 hr.symm
+  exact ⟨f, hf, this.2.1, this.2.2.1, this.2.2.2.1⟩
+
 /-! ## Facts regenerated from the source (T3) -/
 
 /-- the numbering of `cppki.CertType`, the X.509 version, the chain length constant and the list
